@@ -35,6 +35,8 @@ func runC08(c *Ctx) {
 	if es := c.P.LangFunc("(*Evaluator).evalStatement"); es != nil {
 		c.shared("R10", "C07/R1", "a return inside a loop ends the call with that value: every loop consumes break and continue only and passes every other outcome of its body (the return signal included) on unchanged", keyHas("loop-bod"), func(s *Ctx) { c07LoopConsumption(s, es) })
 	}
+	c.shared("R13", "C02/R3", "`next` executed inside a function ends the current element wherever the call is written, a rule pattern included: evalRules returns at once on the next signal from a pattern as from a body", keyHas("errNext-test"), c02R3)
+	c.shared("R14", "C02/R4", "`next` raised while a rule's pattern is evaluated is not read as `no match`: the pattern gate passes every error of the pattern on", keyHas("pattern-gate"), c02R4)
 	c.shared("R12", "C10/R6", "a finished call or match leaves nothing behind: evaluation writes only the documented interpreter state (frames, return slot, roots); nothing is kept in other evaluator fields or in the nodes of the syntax tree", keyHas("evaluator-state", "syntax-tree-store", "interpreter-state"), func(s *Ctx) { interpreterState(s, "R6") })
 	c.shared("R11", "C19/R3", "a finished match leaves nothing behind: the bindings of a case are stored into a frame pushed for that match (never into the enclosing frame, where they would overwrite and then delete a variable of the same name)", keyHas("bindings-before-body", "body-in-"), runC19)
 	c.shared("R8", "C19/R4", "names bound by a match pattern are those of the alternative that matched: the binding map is made per alternative, so a name bound by a failed alternative neither shadows nor overwrites an outer variable", keyHas("bindings-per-alternative"), runC19)
